@@ -785,6 +785,7 @@ func main() {
 		x := globalWrites[i]
 		return fmt.Sprintf("⟨%s, %s, %s, %s⟩", q(x.pkg), q(x.fn), q(x.name), q(x.how))
 	})
+	b.WriteString(generatorTables(*repo)) // generator.go: appended tables gen* (C15)
 	b.WriteString("end LiskVerif.Gen.CompState\n")
 	if *out == "" {
 		fmt.Print(b.String())
